@@ -418,7 +418,8 @@ def oracle(case, out):
         return ('interact/mode-not-restored', 'terminal attributes after interact() differ from those before')
     if (burst or any(st[0] == 'quit' for st in case['steps'])) and out['wall'] > case.get('limit', 6.0):
         return ('interact/no-return-on-exit', 'the child exited but interact() returned only after %.1f s' % out['wall'])
-    if pend and out.get('before_after') not in (None,) and isinstance(out['before_after'], str) and pend.decode('latin-1') and \
+    # (judged only for pending texts long enough not to occur in the child's payloads by accident: 'ab' is part of every burst)
+    if pend and len(pend) >= 8 and out.get('before_after') not in (None,) and isinstance(out['before_after'], str) and pend.decode('latin-1') and \
             pend.decode('latin-1')[:8] in out['before_after'] and not escaped_into(case):
         return ('interact/pending-not-cleared', 'pending text %r was shown by interact() and handed back again by the next call (%r)' % (
             pend[:30], out['before_after'][:40]))
